@@ -91,9 +91,28 @@ impl ProgramLines {
         let mut lines: Vec<String> = Vec::with_capacity(self.numbered_lines.len());
 
         for (line_number, tokens) in self.list_tokens() {
+            let mut previous_token_is_symbol = false;
             let line = tokens
                 .iter()
-                .map(|token| token.to_string())
+                .map(|token| {
+                    let mut string = token.to_string();
+                    if previous_token_is_symbol {
+                        if let Token::NumericLiteral(_) = token {
+                            // Blanks are ignored when a line is read back, so a
+                            // digit right after a symbol would become part of
+                            // its name. A number can only follow a symbol if it
+                            // was written with a leading decimal point, so list
+                            // it that way.
+                            if string.starts_with("0.") {
+                                string.remove(0);
+                            } else if string == "0" {
+                                string = String::from(".0");
+                            }
+                        }
+                    }
+                    previous_token_is_symbol = matches!(token, Token::Symbol(_));
+                    string
+                })
                 .collect::<Vec<String>>()
                 .join(" ");
             let line_source = format!("{} {}\n", line_number, line);
